@@ -299,7 +299,7 @@ theorem partial_ack_fails_pass (c : Cfg) (s : PSt) (j : Nat) (b : Batch) (refuse
    On the unchanged tree `addSequencedLeaves` never looks at `rsp.Results` ("TODO: Check rsp.Results statuses"): a reply with
    code OK whose per-leaf status is FailedPrecondition "conflicting LeafIdentityHash" counts as success, the leaf is not in the
    destination, the pass returns nil, and the hole is permanent (the sequencer cannot pass it) — finding C20-2
-   (known_findings.d/C20.json, fixes/C20-2.diff; harness scenario f1: 57 entries drawn from 8 certificates, SHA256_CERT_DATA, empty
+   (known_findings.d/C20.json, fixes/C20-2-not-applied.diff.txt (not applied: Trillian reports an identical re-submission with the same status, so the patch would fail every pass after a restart until the signer catches up); harness scenario f1: 57 entries drawn from 8 certificates, SHA256_CERT_DATA, empty
    destination: Run returns nil, index 8 refused because its identity hash is already stored under index 16). The model above is the
    property's intent (`ackPartial` fails the pass); the driver follows the regenerated flag so that the trace of the unchanged code is
    still explained step by step, and the oracle `leaf-refused` / `gap` exhibits the hole. With the fix the statement is `by decide`. -/
